@@ -18,6 +18,8 @@ fn escape_char(c: char) -> Value {
         '"' => Value::Str("&quot;"),
         '\'' => Value::Str("&apos;"),
         '&' => Value::Str("&amp;"),
+        // a literal tab in an attribute value is normalized to a space by the reader
+        '\t' => Value::Str("&#x9;"),
         '\n' => Value::Str("&#xA;"),
         '\r' => Value::Str("&#xD;"),
         _ => Value::Char(c),
@@ -30,7 +32,8 @@ fn needs_xlsx_escape(c: char) -> bool {
     let cp = c as u32;
     // XML 1.0 forbidden: 0x00-0x08, 0x0B, 0x0C, 0x0E-0x1F
     // (0x09=TAB, 0x0A=LF, 0x0D=CR are valid in XML and handled above)
-    matches!(cp, 0x00..=0x08 | 0x0B | 0x0C | 0x0E..=0x1F)
+    // and the non-characters U+FFFE, U+FFFF
+    matches!(cp, 0x00..=0x08 | 0x0B | 0x0C | 0x0E..=0x1F | 0xFFFE | 0xFFFF)
 }
 
 /// Returns true if `bytes` starts with `_xHHHH_` (7 bytes, 4 hex digits).
@@ -59,7 +62,7 @@ fn starts_xlsx_escape_pattern(bytes: &[u8]) -> bool {
 pub fn escape_xml(s: &'_ str) -> Cow<'_, str> {
     // Fast path: if no special characters, return borrowed slice.
     let needs_escape = s.char_indices().any(|(i, c)| {
-        matches!(c, '<' | '>' | '"' | '\'' | '&' | '\n' | '\r')
+        matches!(c, '<' | '>' | '"' | '\'' | '&' | '\t' | '\n' | '\r')
             || needs_xlsx_escape(c)
             || (c == '_' && starts_xlsx_escape_pattern(&s.as_bytes()[i..]))
     });
